@@ -98,6 +98,8 @@ func symxKnownFor(id string, label string, region bool) {}
 
 func symxPermuteMaps(on bool) {}
 
+func symxPermuteMapsTwoOrders(on bool) {}
+
 func symxPanicMode(mode string) {}
 
 func symxIsSymbolic() bool { return false }
